@@ -4,6 +4,7 @@ use crate::sim::Ctx;
 pub mod demux;
 pub mod dtls;
 pub mod latch;
+pub mod pc_connect;
 pub mod srtpgate;
 pub mod gen_sctp;
 pub mod sctp;
@@ -14,6 +15,7 @@ pub async fn dispatch(ctx: &Ctx) {
         "dtls_layer" => dtls::run(ctx).await,
         "demux" => demux::run(ctx).await,
         "latch" => latch::run(ctx).await,
+        "pc_connect" => pc_connect::run(ctx).await,
         "srtp_gate" => srtpgate::run(ctx).await,
         other => ctx.violate("HARNESS.scenario", format!("unknown scenario {other}")),
     }
@@ -32,6 +34,7 @@ pub fn generate(prop: &str, seed: u64, idx: u64, tier: Tier) -> Option<Plan> {
         "C11" | "C02" | "C03" => Some(dtls::generate(prop, seed, idx, tier)),
         "C19" => Some(demux::generate(prop, seed, idx, tier)),
         "C18" => Some(latch::generate(prop, seed, idx, tier)),
+        "C10" => Some(pc_connect::generate(prop, seed, idx, tier)),
         "C14" => Some(srtpgate::generate(prop, seed, idx, tier)),
         _ => None,
     }
@@ -43,6 +46,7 @@ pub fn budget(prop: &str, tier: Tier) -> u64 {
         ("C11" | "C02" | "C03", t) => dtls::budget(prop, t),
         ("C19", t) => demux::budget(prop, t),
         ("C18", t) => latch::budget(prop, t),
+        ("C10", t) => pc_connect::budget(prop, t),
         ("C14", t) => srtpgate::budget(prop, t),
         ("C01", Tier::Quick) => 3000,
         ("C01", Tier::Thorough) => 150_000,
